@@ -76,9 +76,20 @@ PROP = {'drive': ['Dsl'],
                  'lists ascending by glyph with the classes 1..k all used, matrix of (k1+1) x (k2+1) entries, GPOS 3 '
                  'coverage ascending and non-empty with int16 anchors, GPOS 4 at least one mark record per subtable, mark '
                  'and base glyphs ascending, mark classes exactly 0..k-1 (< 65536), k int16 anchors per base record',
+                 'Dom for the contextual forms (GSUB 5/6, GPOS 7/8) - tables the notation cannot express are outside the '
+                 'property "parse(explain(l)) is l for every lookup the syntax can express" (each confirmed on the real '
+                 'code, none is a finding): format 1 - a covered glyph without any rule (only rules are written, the glyph '
+                 'drops out of the coverage); format 2 - a class number that no glyph has (classes are numbered by the '
+                 'order of their definitions, and an empty definition "class :c2: = []" is rejected as "empty class"), '
+                 'no rule at all (the grammar wants at least one rule after /coverage/), a rule list shorter than '
+                 'classes+1 (read back padded with empty lists: same meaning, other representation - like GSUB 1.1/1.2 '
+                 'not identified by normalize); format 3 - no input set at all (the grammar wants at least one [set]); '
+                 'action numbers and class references below 65536. By contrast GPOS 2 format 2 CAN express unused class '
+                 'numbers ("first A, , B;"): these are outside the proved domain ClassOk only, and are exercised by the '
+                 'streams (generator genClassesGaps, seeded change C19-r2m1)',
                  'the models mirror the builder including the repairs 12 (NUL byte) and 13 (font without cmap), both '
                  'committed in /repo, 14 (GPOS7/GPOS8 keywords, committed) and 15 (class keywords versus glyph names: '
-                 'patches/C19/15, NOT applied in /repo; check runs need VERIF_REPO pointing to a copy with patch 15)']}
+                 'patches/C19/15, committed as 9963a2a)']}
 
 LEVEL = {'text': 'Proof (partial): Lean models of the lexer (token machine over Go-decoded UTF-8, line counting), of '
          'Parse (every form of the language: lookup flags, glyph lists/sets/ranges/strings, GSUB 1-6, GPOS 1-4, 7, 8), of '
@@ -98,6 +109,6 @@ LEVEL = {'text': 'Proof (partial): Lean models of the lexer (token machine over 
          'the real code.',
  'note': 'Trusted: Lean kernel + 3 standard axioms; hand-written models mirror lexer.go/parser.go/explain.go as '
          'checked by sampled correspondence; Go runtime semantics of unbuffered channels; Unicode tables of the '
-         'toolchain (regenerated). Fifteen defects: fourteen repaired and committed in /repo (fix: builder: ...); the fifteenth (a glyph called class / inputclass / ... at the start of a format 1 subtable is taken for a class definition) is patches/C19/15, which the models mirror and the check needs.',
+         'toolchain (regenerated). Fifteen defects, all repaired and committed in /repo (the fifteenth: a glyph called class / inputclass / ... at the start of a format 1 subtable was taken for a class definition).',
  'technique': 'Lean 4 proofs (induction over inputs and schedules, diamond property, kernel evaluation of finite '
               'universes) + differential correspondence + direct evaluation on the real code'}
